@@ -214,6 +214,17 @@ theorem gather_slots {α} (source : List (Slot α)) (val : Nat → α) (order : 
 example : ((GState.init [none, some (.ok 10), none, none]).run (okComps (fun i => 100 + i) [3, 0, 2])).outer
     = some (.ok [100, 10, 102, 103]) := by rfl
 
+/-- **always_terminates_partial.** For the `gather_futures` machine: once every pending entry has
+    completed (in any order, successfully), the aggregate is no longer pending and nothing blocked.
+    (Partial: the lift to whole executor trees is `AlwaysTerminatesFull` in Props/C08_exec.lean, not proved.) -/
+theorem always_terminates_partial {α} (source : List (Slot α)) (val : Nat → α) (order : List Nat)
+    (hplain : ∀ (i : Nat) (e : Exc), source[i]? ≠ some (some (Except.error e)))
+    (hnodup : order.Nodup) (hall : ∀ i : Nat, source[i]? = some none ↔ i ∈ order) (hne : order ≠ []) :
+    (((GState.init source).run (okComps val order)).outer).isSome = true ∧
+    ((GState.init source).run (okComps val order)).blocked = false := by
+  obtain ⟨h1, _, _, h4, _⟩ := gather_slots source val order hplain hnodup hall hne
+  exact ⟨by simp [h1], h4⟩
+
 /-! #### first exception wins -/
 
 private theorem finish_ok_inv {α} (s : GState α) (i j : Nat) (v : α) (inv : GInv s)
